@@ -27,6 +27,7 @@ Bloom filter (index lists are `L` or `$REG`); the filter's key lives in the same
   bloom                    → ok
   badd R L                 → ok                           (R = T/F: result of the wrapped function)
   bquery CHK UNDER L       → ans=T|F calls=T|F
+  bqueryoff UNDER          → ans=T|F calls=T              (`get_bits` answered None: the wrapped function is asked, the filter untouched)
   bexpire T | bdel | btouch | badv D → ok                 (commands on the filter's key, passage of time)
   dual                     → ok
   dcall NOCOLL UNDER LT LF → ans=T|F calls=T|F
@@ -151,6 +152,10 @@ def step (st : St) (line : String) : St × String :=
       ({ st with filt := Bloom.fstep st.filt (.query l) },
         s!"ans={showBool (Bloom.tquery st.filt l chk under)} calls={showBool (Bloom.tqueryCalls st.filt l chk)}")
     | _, _, _ => (st, "bad-op")
+  | ["bqueryoff", under] =>
+    match parseBool? under with
+    | some under => (st, s!"ans={showBool (Bloom.queryOff under).1} calls={showBool (Bloom.queryOff under).2}")
+    | none => (st, "bad-op")
   | ["bexpire", t] =>
     match t.toNat? with
     | some t => ({ st with filt := Bloom.fstep st.filt (.expire t) }, "ok")
